@@ -484,6 +484,8 @@ class SimplicialComplex(Hypergraph):
                     unique = list(dict.fromkeys(members))
                 except TypeError as e:
                     raise XGIError("Invalid ebunch format") from e
+                if None in unique:
+                    raise XGIError("None cannot be a node or edge")
 
                 # check that it does not exist yet (based on members, not ID)
                 if not unique or self.has_simplex(unique):
@@ -576,6 +578,8 @@ class SimplicialComplex(Hypergraph):
                 unique = list(dict.fromkeys(members))
             except TypeError as e:
                 raise XGIError("Invalid ebunch format") from e
+            if None in unique:
+                raise XGIError("None cannot be a node or edge")
 
             # check that it does not exist yet (based on members, not ID)
             if not unique or self.has_simplex(unique):
